@@ -44,6 +44,23 @@ Example ex_maxiter0 :
      Raise NonConvergenceError).
 Proof. vm_compute. reflexivity. Qed.
 
+(* infeasible periods (fix eb62990): one lag and one lead on a three-period span — only period 1 is feasible;
+   both ends, both spellings of t: IndexError and no change at all (no hook, no pass, no stamp) *)
+Definition ex_desc_ll : mdesc := mkDesc [0%nat] [0%nat] 1%nat 1%nat.
+Example ex_infeasible_rejected :
+  f_solve_t ex_scripts ex_desc_ll (ex_opts 0 4) 0 ex_state = (ex_state, Raise IndexError) /\
+  f_solve_t ex_scripts ex_desc_ll (ex_opts 0 4) (-3) ex_state = (ex_state, Raise IndexError) /\
+  f_solve_t ex_scripts ex_desc_ll (ex_opts 0 4) 2 ex_state = (ex_state, Raise IndexError) /\
+  f_solve_t ex_scripts ex_desc_ll (ex_opts 0 4) (-1) ex_state = (ex_state, Raise IndexError) /\
+  snd (f_solve_t ex_scripts ex_desc_ll (ex_opts 0 4) 1 ex_state) = Ret true /\
+  snd (f_solve_t ex_scripts ex_desc_ll (ex_opts 0 4) (-2) ex_state) = Ret true.
+Proof. repeat split; vm_compute; reflexivity. Qed.
+Example ex_infeasible_hypotheses_satisfiable :
+  let s := ex_state in
+  min_iter (ex_opts 0 4) <= max_iter (ex_opts 0 4) /\ py_pos (length (status s)) (-3) = Some 0%nat /\
+  ((0 < lags ex_desc_ll)%nat \/ (length (status s) <= 0 + leads ex_desc_ll)%nat).
+Proof. cbv zeta. repeat split; try (vm_compute; congruence). left. vm_compute. lia. Qed.
+
 (* ---------------- C06 instances ---------------- *)
 From Coq Require Import String.
 Require Import SolverFacts2.
